@@ -48,8 +48,11 @@ class Stream:
     `limit` (optional, term or int): the stream ends there (truncation)."""
 
     def __init__(self, data, limit=None, max_reads=400, name='q',
-                 whole=False):
+                 whole=False, timeouts=0):
         ctx = Ctx.cur
+        # timeouts: up to that many read() calls may raise socket.timeout
+        # instead (symbolic), consuming nothing - a socket with a timeout set
+        self.timeouts_left = timeouts
         self.ctx = ctx
         self.sym = ctx.mode == 'sym'
         self.name = name
@@ -93,6 +96,11 @@ class Stream:
         if self.calls > self.max_reads:
             raise Unwind('stream read bound %d hit' % self.max_reads)
         ctx = self.ctx
+        if self.timeouts_left and not self.at_end():
+            if ctx.bool('%stimeout%d' % (self.name, self.calls)):
+                self.timeouts_left -= 1
+                import socket as _socket
+                raise _socket.timeout('timed out')
         if not self.sym:
             return self._read_conc(n)
         W = ctx.W
@@ -122,6 +130,20 @@ class Stream:
         out = Rope([Slice(self.data, z3.simplify(pos), r)])
         self.pos = z3.simplify(q)
         return out
+
+    def readinto(self, b):
+        """RawIOBase.readinto (the real socket file object has it): up to
+        len(b) bytes are stored into b, 0 at end of stream"""
+        data = self.read(len(b))
+        items = bytes_items(data)
+        if not all(isinstance(x, int) for x in items):
+            items = list(SBytes(items).concretize())
+        k = len(items)
+        b[:k] = builtins.bytes(items)
+        return k
+
+    def readable(self):
+        return True
 
     def _read_conc(self, n):
         if n <= 0 or self.pos >= self.limit:
@@ -188,7 +210,8 @@ def _deflate_tail(t):
         return _bits_to_bytes(_FIXED_EMPTY * (m - 1) + _FIXED_EMPTY_FINAL)
     if t == 6:      # empty fixed block, then an empty final stored block
         return _bits_to_bytes(_FIXED_EMPTY + [1, 0, 0]) + b'\x00\x00\xff\xff'
-    return b'\x00\x00\x00\xff\xff' + _deflate_tail(t - 5)
+    n5 = (t - 2) // 5              # empty stored blocks, then 2..6 bytes
+    return b'\x00\x00\x00\xff\xff' * n5 + _deflate_tail(t - 5 * n5)
 
 
 def zlib_of_length(data, L):
@@ -232,10 +255,26 @@ class ZlibStub:
     def length_range(self, data):
         data = builtins.bytes(data)
         hi = len(data) + 13
+        if len(data) > 4096:
+            # large payloads: everything from (best real compression + the
+            # shortest padding) upwards is reachable by construction
+            c = _zlib.compressobj(9, _zlib.DEFLATED, -15)
+            body = c.compress(data) + c.flush(_zlib.Z_SYNC_FLUSH)
+            return 2 + len(body) + 4 + 2, hi
         lo = hi
         while lo > 2 and zlib_of_length(data, lo - 1) is not None:
             lo -= 1
         return lo, hi
+
+    def length_candidates(self, n, lo, hi):
+        """all lengths when there are few; otherwise the ends, the lengths
+        around the inflated size and around the VarInt width changes"""
+        if hi - lo <= 160:
+            return list(range(lo, hi + 1))
+        c = {lo, lo + 1, hi - 1, hi, n - 1, n, n + 1}
+        for b in (1 << 7, 1 << 14, 1 << 21):
+            c |= {b - 2, b - 1, b, b + 1}
+        return sorted(x for x in c if lo <= x <= hi)
 
     def compress(self, data, *a):
         if self.choose_length:
@@ -248,8 +287,10 @@ class ZlibStub:
                                  for b in items)
             k = len(self.table)
             lo, hi = self.length_range(raw)
-            L = concretize(ctx.int('zlen%d' % k, lo, hi))
-            if not self.sym:
+            cands = self.length_candidates(len(raw), lo, hi)
+            L = cands[concretize(ctx.int('zlen%d' % k, 0, len(cands) - 1))]
+            if not self.sym or L > 4096:
+                # (large outputs: the real stream also in the symbolic run)
                 out = zlib_of_length(raw, L)
                 self.table.append((list(out), list(raw)))
                 return out
